@@ -53,10 +53,10 @@ def cases(shard, rabin):
 
 
 def run_case(case, acc, rabin, pid):
-    # every other game is synthesized in an automaton with a history (an
+    # every third game is synthesized in an automaton with a history (an
     # earlier solve under another ownership of the variables)
-    reuse = bool(int(stable_hash({k: v for k, v in case.items()
-                                  if k != 'inits'})[:4], 16) % 2) \
+    reuse = (int(stable_hash({k: v for k, v in case.items()
+                              if k != 'inits'})[:4], 16) % 3 == 0) \
         if 'reuse' not in case else bool(case['reuse'])
     case = dict(case, reuse=reuse)
     first = synth.Synth(case, reuse=reuse)
